@@ -179,16 +179,15 @@ structure WSim (s t : State) : Prop where
   ht : t.hooks = []
   hands : s.handling = false
   handt : t.handling = false
-  blind : s.blind = t.blind
   ops : opsOut s.out = opsOut t.out
   cbs : (cbOut s.out).Perm (cbOut t.out)
 
 theorem wsim_accepts {s t : State} (h : WSim s t) (c : Nat) (k : OpKind) : accepts s c k ↔ accepts t c k := by
   cases k <;> simp [accepts, removeOk, recreateOk, h.ev c, h.added c, h.hands, h.handt]
 
-theorem wsim_applyOp {s t : State} (h : WSim s t) (c : Nat) (k : OpKind) (hb : (applyOp s c k).blind = false) :
+theorem wsim_applyOp {s t : State} (h : WSim s t) (c : Nat) (k : OpKind) :
     WSim (applyOp s c k) (applyOp t c k) := by
-  obtain ⟨ps', ds', _⟩ := pollStruct_applyOp h.bes h.ps c k hb
+  obtain ⟨ps', ds', _⟩ := pollStruct_applyOp h.bes h.ps c k
   obtain ⟨es', dt', _⟩ := epStruct_applyOp h.bet h.es c k
   have ds'' := ds'.trans h.ds
   have dt'' := dt'.trans h.dt
@@ -196,7 +195,7 @@ theorem wsim_applyOp {s t : State} (h : WSim s t) (c : Nat) (k : OpKind) (hb : (
   · rw [h.ds] at hd; exact absurd hd (by simp)
   · have h2 := applyOp_reject h.dt (fun a => hacc ((wsim_accepts h c k).2 a))
     refine ⟨(applyOp_be s c k).trans h.bes, (applyOp_be t c k).trans h.bet, ps', es', ds'', dt'', ?_, ?_, ?_,
-      ?_, ?_, ?_, ?_, ?_, ?_, ?_⟩
+      ?_, ?_, ?_, ?_, ?_, ?_⟩
     all_goals (try rw [h1]); (try rw [h2])
     · exact h.ev
     · exact h.rev
@@ -205,7 +204,6 @@ theorem wsim_applyOp {s t : State} (h : WSim s t) (c : Nat) (k : OpKind) (hb : (
     · exact h.ht
     · exact h.hands
     · exact h.handt
-    · exact h.blind
     · simp only [emit, opsOut_append, h.ops]
     · simp only [emit, cbOut_append]
       exact h.cbs.append (by simp [cbOut, Ev.isCb])
@@ -213,7 +211,7 @@ theorem wsim_applyOp {s t : State} (h : WSim s t) (c : Nat) (k : OpKind) (hb : (
     obtain ⟨l1, hl1, ha1, _⟩ := h1.out
     obtain ⟨l2, hl2, ha2, _⟩ := h2.out
     refine ⟨(applyOp_be s c k).trans h.bes, (applyOp_be t c k).trans h.bet, ps', es', ds'', dt'',
-      fun x => ?_, fun x => ?_, fun x => ?_, ?_, ?_, ?_, ?_, ?_, ?_, ?_⟩
+      fun x => ?_, fun x => ?_, fun x => ?_, ?_, ?_, ?_, ?_, ?_, ?_⟩
     · rw [h1.ev x, h2.ev x, h.ev c, h.ev x]
     · rw [h1.rev x, h2.rev x, h.rev c, h.rev x]
     · rw [h1.added x, h2.added x, h.added x]
@@ -221,8 +219,6 @@ theorem wsim_applyOp {s t : State} (h : WSim s t) (c : Nat) (k : OpKind) (hb : (
     · rw [h2.hooks, h.ht]
     · rw [h1.handling, h.hands]
     · rw [h2.handling, h.handt]
-    · rw [h1.blind, h2.blind, h.blind]
-      simp only [blindUpdate, h.ev c, h.added c]
     · rw [(ha1 ds'').2, (ha2 dt'').2]
       simp only [opsOut_append, opsOut_none l1 (fun e he => isBack_stripOp (hl1 e he)),
         opsOut_none l2 (fun e he => isBack_stripOp (hl2 e he)), h.ops, List.append_nil]
@@ -244,15 +240,14 @@ def permEnvOk (sp se : State) : In → Prop
   | .op _ _ => True
 instance : Decidable (permEnvOk sp se i) := by cases i <;> unfold permEnvOk <;> infer_instance
 
-theorem wsim_iter {s t : State} (h : WSim s t) (ready) (nret) (henv : permEnvOk s t (.iter ready nret))
-    (hb : (iter s ready nret).blind = false) : WSim (iter s ready nret) (iter t ready nret) := by
+theorem wsim_iter {s t : State} (h : WSim s t) (ready) (nret) (henv : permEnvOk s t (.iter ready nret)) :
+    WSim (iter s ready nret) (iter t ready nret) := by
   obtain ⟨he, hnd, hact⟩ := henv
-  have hb0 : s.blind = false := blind_monoR (reach_iter s ready nret) hb
   have fs := frame_pollerPoll s ready nret
   have ft := frame_pollerPoll t ready nret
   have bs := sameBook_pollerPoll s ready nret
   have bt := sameBook_pollerPoll t ready nret
-  have hds := ((pollGood_poll s ready nret ⟨h.bes, fun _ => ⟨h.ds, h.ps⟩⟩).2 (fs.blind.trans hb0)).1
+  have hds := (pollGood_poll s ready nret ⟨h.bes, h.ds, h.ps⟩).2.1
   have hdt := (epAlive_poll t ready nret ⟨⟨h.bet, h.es⟩, h.dt⟩ he).2
   obtain ⟨ls, hls, hps, _⟩ := fs.out
   obtain ⟨lt, hlt, hpt, _⟩ := ft.out
@@ -272,14 +267,12 @@ theorem wsim_iter {s t : State} (h : WSim s t) (ready) (nret) (henv : permEnvOk 
     iter_nohooks h.ht h.dt ready nret hdt (bt.hooks.trans h.ht)]
   refine ⟨fs.be.trans h.bes, ft.be.trans h.bet,
     (h.ps.frame fs).congr rfl rfl (fun _ => rfl) (fun _ => rfl) (fun _ => rfl),
-    (h.es.frame ft).congr rfl rfl rfl (fun _ => rfl) (fun _ => rfl) (fun _ => rfl), hds, hdt,
-    fun c => ?_, hrev, fun c => ?_, bs.hooks.trans h.hs, bt.hooks.trans h.ht, rfl, rfl, ?_, ?_, ?_⟩
+    (h.es.frame ft).congr rfl rfl (fun _ => rfl) (fun _ => rfl) (fun _ => rfl), hds, hdt,
+    fun c => ?_, hrev, fun c => ?_, bs.hooks.trans h.hs, bt.hooks.trans h.ht, rfl, rfl, ?_, ?_⟩
   · show ((pollerPoll s ready nret).1.chans c).events = ((pollerPoll t ready nret).1.chans c).events
     rw [fs.ev, ft.ev, h.ev]
   · show ((pollerPoll s ready nret).1.chans c).added = ((pollerPoll t ready nret).1.chans c).added
     rw [fs.added, ft.added, h.added]
-  · show (pollerPoll s ready nret).1.blind = (pollerPoll t ready nret).1.blind
-    rw [fs.blind, ft.blind, h.blind]
   · show opsOut (_ ++ _) = opsOut (_ ++ _)
     have hz : ∀ (S : State) (act : List Nat), opsOut (List.flatMap (cbsOf S) act) = [] := by
       intro S act
@@ -305,22 +298,21 @@ theorem wsim_iter {s t : State} (h : WSim s t) (ready) (nret) (henv : permEnvOk 
     exact List.Perm.flatMap_right _ hact
 
 theorem wsim_run (ins : List In) : ∀ (s t : State), WSim s t → Along2 permEnvOk s t ins →
-    (run s ins).blind = false → WSim (run s ins) (run t ins) := by
+    WSim (run s ins) (run t ins) := by
   induction ins with
-  | nil => intro s t h _ _; exact h
+  | nil => intro s t h _; exact h
   | cons i rest ih =>
-    intro s t h ha hb
+    intro s t h ha
     obtain ⟨hq, ha'⟩ := ha
-    have hb1 : (step s i).blind = false := blind_monoR (reach_run rest _) hb
-    refine ih (step s i) (step t i) ?_ ha' hb
+    refine ih (step s i) (step t i) ?_ ha'
     cases i with
-    | op c k => exact wsim_applyOp h c k hb1
+    | op c k => exact wsim_applyOp h c k
     | hook x => exact absurd hq (by simp [permEnvOk])
-    | iter ready nret => exact wsim_iter h ready nret hq hb1
+    | iter ready nret => exact wsim_iter h ready nret hq
 
 theorem wsim_init : WSim (init .poll) (init .epoll) :=
   ⟨rfl, rfl, sim_init.ps, sim_init.es, sim_init.ds, sim_init.dt, sim_init.abs.ev, sim_init.abs.rev,
-    sim_init.abs.added, rfl, rfl, rfl, rfl, rfl, rfl, List.Perm.refl _⟩
+    sim_init.abs.added, rfl, rfl, rfl, rfl, rfl, List.Perm.refl _⟩
 
 
 /-- operations between polls only; the kernel lists the ready descriptors in another order than
@@ -328,73 +320,5 @@ theorem wsim_init : WSim (init .poll) (init .epoll) :=
 def sampleUnordered : List In :=
   [.op 2 .enableR, .op 3 .enableW, .op 4 .enableR, .iter [(4, 1), (2, 1), (3, 4)] 3, .op 3 .disableAll,
    .op 3 .remove, .iter [(4, 16), (2, 1)] 2]
-
-/-! ### the ghost flag `blind` is visible in the trace -/
-
-/-- the trace contains an `enable*/disable*` that left an unregistered channel without interest (F21) -/
-def BlindInTrace (out : List Ev) : Prop :=
-  ∃ pre c k i post, out = pre ++ .op c k 0 i :: post ∧ k.isUpdate = true ∧ histAdded c pre = false
-
-theorem BlindInTrace.append {out : List Ev} (h : BlindInTrace out) (l : List Ev) : BlindInTrace (out ++ l) := by
-  obtain ⟨pre, c, k, i, post, h1, h2, h3⟩ := h
-  exact ⟨pre, c, k, i, post ++ l, by rw [h1]; simp, h2, h3⟩
-
-/-- `blind` is set only by such an operation (or the process died while executing it) -/
-structure BlindInv (s : State) : Prop where
-  tr : TraceInv s
-  vis : s.blind = true → s.dead = true ∨ BlindInTrace s.out
-
-theorem blindInv_applyOp (s : State) (c : Nat) (k : OpKind) (h : BlindInv s) : BlindInv (applyOp s c k) := by
-  refine ⟨traceInv_applyOp s c k h.tr, ?_⟩
-  rcases applyOp_cases s c k with ⟨_, h1⟩ | ⟨_, _, h1⟩ | ⟨hd, _, h1⟩
-  · rw [h1]; exact h.vis
-  · rw [h1]
-    intro hb
-    rcases h.vis hb with h2 | h2
-    · exact .inl h2
-    · exact .inr (h2.append _)
-  · intro hb
-    obtain ⟨l, hlb, halive, _⟩ := h1.out
-    cases hd' : (applyOp s c k).dead with
-    | true => exact .inl rfl
-    | false =>
-      right
-      rw [(halive hd').2]
-      rw [h1.blind, Bool.or_eq_true] at hb
-      rcases hb with hb | hb
-      · rcases h.vis hb with h2 | h2
-        · rw [hd] at h2; exact absurd h2 (by simp)
-        · rw [List.append_assoc]; exact h2.append _
-      · rw [Bool.and_eq_true] at hb
-        obtain ⟨hk, hbu⟩ := hb
-        have hbu' : (s.chans c).added = false ∧ newEvents k (s.chans c).events = 0 := by
-          simp only [blindUpdate, isNoneEvent, kNoneEvent] at hbu
-          exact of_decide_eq_true hbu
-        refine ⟨s.out ++ l, c, k, ((applyOp s c k).chans c).index, [], ?_, hk, ?_⟩
-        · have hev : ((applyOp s c k).chans c).events = 0 := by
-            rw [h1.ev c, if_pos rfl]
-            cases k <;> simp_all [opEvents, OpKind.isUpdate]
-          rw [hev]
-        · rw [histAdded_append_noop c _ _ (fun e he => isBack_notOp (hlb e he)), ← h.tr.added hd c]
-          exact hbu'.1
-
-theorem blindInv_run (be : Backend) (ins : List In) : BlindInv (run (init be) ins) := by
-  refine ReachF.preserves (P := BlindInv) blindInv_applyOp ?_ ?_ (reach_run ins _)
-    ⟨traceInv_init be, fun hb => by cases be <;> exact absurd hb (by decide)⟩
-  · intro s t f h
-    refine ⟨traceInv_frame s t f h.tr, fun hb => ?_⟩
-    obtain ⟨l, hl, _, _⟩ := f.out
-    rw [f.blind] at hb
-    rcases h.vis hb with h2 | h2
-    · cases hd : t.dead with
-      | true => exact .inl rfl
-      | false => rw [f.dead hd] at h2; exact absurd h2 (by simp)
-    · rw [hl]; exact .inr (h2.append l)
-  · intro s t q h
-    refine ⟨traceInv_cb s t q h.tr, fun hb => ?_⟩
-    obtain ⟨c, k, hd, _, _, rfl⟩ := q
-    rcases h.vis hb with h2 | h2
-    · rw [hd] at h2; exact absurd h2 (by simp)
-    · exact .inr (h2.append _)
 
 end MuduoVerif.Poller
